@@ -11,6 +11,7 @@ import (
 	"sync"
 	"time"
 
+	"github.com/bradenaw/juniper/stream"
 	"github.com/bradenaw/juniper/xsync"
 	"github.com/bradenaw/juniper/xtime"
 )
@@ -49,6 +50,8 @@ func cmdRT(args []string) {
 		runs = rtSleep(*n, put)
 	case "group":
 		runs = rtGroup(*n, put)
+	case "batch":
+		runs = rtBatch(*n, put)
 	}
 	w.Flush()
 	f.Close()
@@ -145,6 +148,104 @@ func rtGroup(n int, put func([]map[string]any)) int {
 			}
 			g.StopAndWait()
 			log(map[string]any{"ev": "ret", "id": 1, "op": "StopAndWait", "res": map[string]any{"k": "nil"}})
+			mu.Lock()
+			put(evs)
+			mu.Unlock()
+		}(i)
+	}
+	wg.Wait()
+	return n
+}
+
+// rtSrc: a source fed through a channel; it logs the hand-over of every item.
+type rtSrc struct {
+	c   chan int
+	log func(map[string]any)
+}
+
+func (s *rtSrc) Next(ctx context.Context) (int, error) {
+	select {
+	case v, ok := <-s.c:
+		if !ok {
+			s.log(map[string]any{"ev": "srcend", "i": 0})
+			return 0, stream.End
+		}
+		s.log(map[string]any{"ev": "taken", "v": v, "i": 0})
+		return v, nil
+	case <-ctx.Done():
+		return 0, ctx.Err()
+	}
+}
+func (s *rtSrc) Close() { s.log(map[string]any{"ev": "srcclose", "i": 0}) }
+
+// rtBatch: BatchFunc with a full() callback that is slow once, so that the maxWait timer expires while the batcher is
+// outside its select and the batch then becomes full (the timer is stopped after it has fired). The next batch is
+// under-full and must still wait maxWait. Records in the vocabulary of Trace_Batch (ms of the real clock; only the
+// lower bound "under-full only after maxWait" and the partition rules are judged - there are no quiescence records).
+func rtBatch(n int, put func([]map[string]any)) int {
+	const maxWait = 100 // ms
+	var wg sync.WaitGroup
+	for i := 0; i < n; i++ {
+		wg.Add(1)
+		go func(i int) {
+			defer wg.Done()
+			start := time.Now()
+			var mu sync.Mutex
+			evs := []map[string]any{{"ev": "reset", "run": i, "size": 2, "maxwait": maxWait, "func": true}}
+			log := func(e map[string]any) {
+				mu.Lock()
+				e["t"] = int64(time.Since(start) / time.Millisecond)
+				evs = append(evs, e)
+				mu.Unlock()
+			}
+			src := &rtSrc{c: make(chan int), log: log}
+			slow := true
+			st := stream.BatchFunc[int](src, maxWait*time.Millisecond, func(b []int) bool {
+				if len(b) >= 2 {
+					if slow {
+						slow = false
+						time.Sleep((maxWait/2 + 30 + time.Duration(i%5)*5) * time.Millisecond)
+					}
+					return true
+				}
+				return false
+			})
+			id := 0
+			next := func() {
+				id++
+				my := id
+				res := map[string]any{"k": "none", "items": []int{}, "e": ""}
+				log(map[string]any{"ev": "call", "id": my, "op": "Next", "ctx": 0, "res": res})
+				b, err := st.Next(context.Background())
+				switch {
+				case err == nil:
+					res = map[string]any{"k": "batch", "items": b, "e": ""}
+				case err == stream.End:
+					res = map[string]any{"k": "end", "items": []int{}, "e": ""}
+				default:
+					res = map[string]any{"k": "err", "items": []int{}, "e": "other:" + err.Error()}
+				}
+				log(map[string]any{"ev": "ret", "id": my, "op": "Next", "res": res})
+			}
+			done := make(chan struct{})
+			go func() { // the consumer: reads to the end
+				defer close(done)
+				for k := 0; k < 4; k++ {
+					next()
+				}
+			}()
+			time.Sleep(10 * time.Millisecond) // the consumer is waiting at an empty batch
+			src.c <- 1                        // arms the timer
+			time.Sleep(maxWait / 2 * time.Millisecond)
+			src.c <- 2 // full() is slow: the timer fires meanwhile; then the batch is full and is handed out
+			src.c <- 3 // the next batch: under-full, its timer is re-armed
+			time.Sleep((2*maxWait + 50) * time.Millisecond)
+			close(src.c)
+			<-done
+			id++
+			log(map[string]any{"ev": "call", "id": id, "op": "Close", "ctx": 0, "res": map[string]any{"k": "nil", "items": []int{}, "e": ""}})
+			st.Close()
+			log(map[string]any{"ev": "ret", "id": id, "op": "Close", "res": map[string]any{"k": "nil", "items": []int{}, "e": ""}})
 			mu.Lock()
 			put(evs)
 			mu.Unlock()
